@@ -202,6 +202,10 @@ struct MappedClass {
         std::unique_ptr<Base> ref; // plain PGMIndex built over the keys under the same simulated machine
         bool f1_valid = false, f2_valid = false, raw_valid = false;
         std::map<std::string, Instance> inst;
+        bool have_hdr = false;                       ///< index part (levels_offsets, segments) of the first instance of the history
+        std::vector<size_t> hdr_offs;
+        std::vector<unsigned char> hdr_segs;
+        std::map<std::string, std::vector<unsigned char>> reopened_ref; ///< bytes of a file at its (latest) reopen: must stay what they are
         std::vector<size_t> calls_per_op;
         bool check_c11 = true, check_c12 = true;
         bool check_c07 = false;  ///< judge the routing of every search through hook H2 (bounded work per level), nothing else
@@ -211,14 +215,33 @@ struct MappedClass {
     static std::string file_of(Ctx &c, const std::string &f) { return f == "F2" ? c.f2 : c.f1; }
     static bool &valid_of(Ctx &c, const std::string &f) { return f == "F2" ? c.f2_valid : c.f1_valid; }
 
+    /// a file that was reopened must still hold the bytes it held then (queries and destruction are read-only)
+    static void check_unaltered(Ctx &c, const std::string &file, const std::string &what, Outcome &out) {
+        auto it = c.reopened_ref.find(file);
+        if (it == c.reopened_ref.end()) return;
+        std::vector<unsigned char> now;
+        read_file(file, now);
+        if (now != it->second) out.fail("reopen-altered-file", what + ": the file's bytes changed after it was reopened (through the reopened object's queries or destruction)");
+    }
+
     static void check_header(Ctx &c, const Index &ix, const std::string &what, Outcome &out) {
         const Base &b = static_cast<const Base &>(ix);
         const Base &r = *c.ref;
         if (Peek::count(b) != c.data->size()) { out.fail("header-n", what + ": n = " + std::to_string(Peek::count(b)) + ", expected " + std::to_string(c.data->size())); return; }
         if (Peek::first(b) != c.data->front()) { out.fail("header-first-key", what + ": first_key = " + key_text(Peek::first(b)) + ", the first key of the sequence is " + key_text(c.data->front())); return; }
-        if (Peek::offs(b) != Peek::offs(r)) { out.fail("header-levels-offsets", what + ": levels_offsets differ from those of an index built over the same sequence"); return; }
-        const auto &sa = Peek::segs(b), &sb = Peek::segs(r);
-        if (sa.size() != sb.size() || (!sa.empty() && std::memcmp(sa.data(), sb.data(), sa.size() * sizeof(sa[0])) != 0)) { out.fail("header-segments", what + ": segments differ from those of an index built over the same sequence"); return; }
+        // The index part of every instance of a history must be the same (the construction paths write byte-identical
+        // files, a reopened object holds what the file holds): the first instance of the history is the reference.
+        // (A plain PGMIndex over the same keys, `r`, is only consulted for a probe: C12 does not say that a mapped index
+        // is segmented exactly like a PGMIndex.)
+        const auto &sa = Peek::segs(b);
+        if (!c.have_hdr) {
+            c.have_hdr = true; c.hdr_offs.assign(Peek::offs(b).begin(), Peek::offs(b).end());
+            c.hdr_segs.assign(reinterpret_cast<const unsigned char *>(sa.data()), reinterpret_cast<const unsigned char *>(sa.data()) + sa.size() * sizeof(sa[0]));
+            (void) r;
+            return;
+        }
+        if (std::vector<size_t>(Peek::offs(b).begin(), Peek::offs(b).end()) != c.hdr_offs) { out.fail("header-levels-offsets", what + ": levels_offsets differ from those of the first container of this history (same sequence)"); return; }
+        if (sa.size() * sizeof(sa[0]) != c.hdr_segs.size() || (!sa.empty() && std::memcmp(sa.data(), c.hdr_segs.data(), c.hdr_segs.size()) != 0)) { out.fail("header-segments", what + ": segments differ from those of the first container of this history (same sequence)"); return; }
     }
 
     static void check_queries(Ctx &c, const Index &ix, const std::string &what, Outcome &out, Trace &tr, Stats &st) {
@@ -268,6 +291,8 @@ struct MappedClass {
     static void execute_history(const PlanText &p, const std::vector<FileOp> &ops, Ctx &c, const std::pair<size_t, sim::IoFault> *single, Outcome &out, Trace &tr, Stats &st) {
         const auto &d = *c.data;
         c.inst.clear();
+        c.reopened_ref.clear();
+        c.have_hdr = false;
         c.f1_valid = c.f2_valid = c.raw_valid = false;
         c.calls_per_op.assign(ops.size(), 0);
         for (size_t oi = 0; oi < ops.size() && out.ok; ++oi) {
@@ -297,7 +322,7 @@ struct MappedClass {
                 // creating over a file that live containers have mapped would change it under them: no property covers that
                 if (!is_reopen) { bool mapped = false; for (auto &kv : c.inst) if (kv.second.file == file) mapped = true; if (mapped) continue; }
                 std::vector<unsigned char> before;
-                if (is_reopen) read_file(file, before);
+                if (is_reopen) read_file(file, before); else c.reopened_ref.erase(file);
                 sim::io_begin_op(faults);
                 sim::begin_run(c.env);
                 std::unique_ptr<Index> ix;
@@ -334,14 +359,19 @@ struct MappedClass {
                     std::vector<unsigned char> after;
                     read_file(file, after);
                     if (after != before) out.fail("reopen-altered-file", what + ": the file's bytes changed during a reopen");
+                    // a write-class call (open for writing, writable mapping, write of the same bytes) is recorded, not judged:
+                    // the property speaks about the file being altered, which the byte comparisons decide - here, after the
+                    // queries of the reopened object and after its destruction (a writable shared mapping could alter it later)
                     auto wc = write_class.find(file);
-                    if (out.ok && wc != write_class.end() && !wc->second.empty()) out.fail("reopen-wrote-to-file", what + ": write-class call on the file during a reopen: " + wc->second.front());
+                    if (wc != write_class.end() && !wc->second.empty()) st.inc("reach.reopen_used_write_class_call");
+                    if (out.ok && thrown_type.empty()) c.reopened_ref[file] = before;
                     st.inc("reach.reopen_checked");
                 }
             } else if (o.kind == "query") {
                 auto it = c.inst.find(o.slot);
                 if (it == c.inst.end()) continue;
                 if (c.check_c11) check_queries(c, *it->second.idx, what, out, tr, st);
+                if (out.ok && c.check_c12) check_unaltered(c, it->second.file, what, out);
             } else if (o.kind == "successor") {
                 // History step: the container queried last is destroyed and a container over different keys is created straight
                 // away (the allocator hands the same address back); its first queries repeat the destroyed container's last ones.
@@ -375,7 +405,10 @@ struct MappedClass {
                 ix.reset();
                 ::unlink(f3.c_str());
             } else if (o.kind == "destroy") {
+                auto it = c.inst.find(o.slot);
+                std::string file = it == c.inst.end() ? std::string() : it->second.file;
                 c.inst.erase(o.slot);
+                if (!file.empty() && out.ok && c.check_c12) check_unaltered(c, file, what, out);
             } else if (o.kind == "compare-files") {
                 if (!(c.f1_valid && c.f2_valid) || !c.check_c12) continue;
                 std::vector<unsigned char> a, b;
